@@ -26,13 +26,40 @@ FILES = [
     ("B2", "chB/metadata", "metadata@%d.h5" % (T.T0 + 3), (T.T0 + 3) * 1000, 90),
 ]
 GROW = {"A2": 40, "B1": 25}
+BASE_FILES = list(FILES)
 FID = {f[0]: f for f in FILES}
 SPACING = 2000
+SD_OTHER = T.subdir_name(T.T0 + 3600)
+SUBDIR_OF = {}
+
+
+def variant_of(cfg):
+    return cfg[3] if len(cfg) > 3 else None
+
+
+def set_universe(cfg):
+    """Variants of the small universe (each configuration is explored in its own process):
+    'dupkey' - A3 carries the same time stamp (and name) as A2 but lives in another subdirectory of the channel,
+               as after a re-filing or a restart with another subdirectory cadence;
+    'nodrf'  - the handler is built with include_drf=False (metadata-only ring buffer)."""
+    FILES[:] = BASE_FILES
+    SUBDIR_OF.clear()
+    if variant_of(cfg) == "dupkey":
+        a2 = [f for f in BASE_FILES if f[0] == "A2"][0]
+        FILES[2] = ("A3", "chA", a2[2], a2[3], 130)
+        SUBDIR_OF["A3"] = SD_OTHER
+    FID.clear()
+    FID.update({f[0]: f for f in FILES})
+
+
+def watched(cfg, fid):
+    """is this file of a kind the handler was asked to manage?"""
+    return not (variant_of(cfg) == "nodrf" and FID[fid][1] == "chA")
 
 
 def fpath(top, fid, tmp=False):
     _, ch, name, _, _ = FID[fid]
-    return os.path.join(top, ch, SD, ("tmp." if tmp else "") + name)
+    return os.path.join(top, ch, SUBDIR_OF.get(fid, SD), ("tmp." if tmp else "") + name)
 
 
 def protected_files(top):
@@ -61,6 +88,9 @@ def configs(tier):
         out = [c for c in out if c in keep]
     # a zero duration is a legal limit ("keep only the newest time stamp of each channel and kind")
     out += [(None, None, 0), (allsize, 2, 0)]
+    # universe variants (see set_universe)
+    out += [(None, 1, None, "nodrf"), (None, None, SPACING, "nodrf"),
+            (None, 2, None, "dupkey"), (None, None, SPACING, "dupkey"), (minsize, None, None, "dupkey")]
     return out
 
 
@@ -88,7 +118,9 @@ class World:
     def __init__(self, top, cfg):
         self.top = top
         self.cfg = cfg
+        set_universe(cfg)
         os.makedirs(os.path.join(top, "chA", SD), exist_ok=True)
+        os.makedirs(os.path.join(top, "chA", SD_OTHER), exist_ok=True)
         os.makedirs(os.path.join(top, "chB", "metadata", SD), exist_ok=True)
         for p in protected_files(top):
             os.makedirs(os.path.dirname(p), exist_ok=True)
@@ -126,8 +158,9 @@ class World:
     def new_handler(self):
         from digital_rf import ringbuffer
 
-        size, count, duration = self.cfg
-        return ringbuffer.DigitalRFRingbufferHandler(size=size, count=count, duration=duration, verbose=False, dryrun=False)
+        size, count, duration = self.cfg[:3]
+        kw = {"include_drf": False} if variant_of(self.cfg) == "nodrf" else {}
+        return ringbuffer.DigitalRFRingbufferHandler(size=size, count=count, duration=duration, verbose=False, dryrun=False, **kw)
 
     def restore(self, state):
         disk, records, queues, active = state
@@ -201,6 +234,8 @@ class World:
         p = fpath(top, fid) if fid else None
         newly_reported = []
         reported_only = []
+        for f_ in FID:  # (the handler removes emptied subdirectories; the recorder would re-create them)
+            os.makedirs(os.path.dirname(fpath(top, f_)), exist_ok=True)
         # ---- disk part (not intercepted)
         if kind == "create_real":
             if not os.path.exists(p):
@@ -263,7 +298,7 @@ class World:
                 from digital_rf import list_drf
 
                 inbuffer = set(h.records.keys())
-                ondisk = set(list_drf.ilsdrf(top, include_drf=True, include_dmd=True, include_drf_properties=False,
+                ondisk = set(list_drf.ilsdrf(top, include_drf=variant_of(self.cfg) != "nodrf", include_dmd=True, include_drf_properties=False,
                                              include_dmd_properties=False))
                 deletions = inbuffer - ondisk
                 h.remove_files(deletions)
@@ -288,7 +323,7 @@ class World:
 
 def limits_exceeded(cfg, tracked):
     """tracked: dict path -> (key, size, group).  Returns list of exceeded limit names."""
-    size, count, duration = cfg
+    size, count, duration = cfg[:3]
     out = []
     groups = collections.defaultdict(list)
     for p, (key, sz, grp) in tracked.items():
@@ -373,6 +408,13 @@ def check_transition(world, cfg, pre, ev, log, exc, newly, post):
     # a report only counts when the file could be taken in (an event for a file that is not on
     # disk any more is dropped by the handler and triggers no expiry)
     removed_now = {l[1] for l in log if l[0] == "remove"}
+    rev = {fpath(top, f): f for f in FID}
+    for p in newly:
+        if p in rev and watched(cfg, rev[p]) and os.path.exists(p) and p not in recs and not errs:
+            errs.append(({"class": "reported_file_on_disk_not_tracked", "event": ev[0]},
+                         "after %r: %s was reported, is on disk and of a watched kind, but is not in the tracked set" % (ev, rev[p])))
+        if p in rev and not watched(cfg, rev[p]) and p in recs:
+            errs.append(({"class": "unwatched_kind_tracked", "event": ev[0]}, "%s tracked although its kind is excluded" % rev[p]))
     newly = [p for p in newly if p in recs or p in removed_now]
     if newly and not errs:
         tracked = {p: (r.key, r.size, r.group) for p, r in recs.items()}
